@@ -32,7 +32,7 @@ func executeSpec(spec *RunSpec, st *Stats) *Violation {
 	case "wfault":
 		return execWfault(spec, st)
 	case "hist":
-		return execHist(spec, st)
+		return execHistDeadline(spec, st)
 	case "sched":
 		return execSched(spec, st)
 	}
@@ -171,8 +171,9 @@ func minimise(spec *RunSpec, class string, pred func(*RunSpec) bool, maxTried in
 		// 3b. configuration: switch features off one at a time
 		for _, f := range []func(*Config){
 			func(c *Config) { c.GFM, c.TableAlign, c.LinkifyOpt = false, "", "" }, func(c *Config) { c.TableAlign = "" }, func(c *Config) { c.DefList = false },
-			func(c *Config) { c.Footnote, c.FootnoteOpt = false, "" }, func(c *Config) { c.FootnoteOpt = "" }, func(c *Config) { c.Typographer, c.TypoSubs = false, false },
-			func(c *Config) { c.TypoSubs = false }, func(c *Config) { c.LinkifyOpt = "" }, func(c *Config) { c.CJK = "" },
+			func(c *Config) { c.Footnote, c.FootnoteOpt = false, "" }, func(c *Config) { c.FootnoteOpt = "" }, func(c *Config) { c.Typographer, c.TypoSubs, c.TypoAll = false, false, false },
+			func(c *Config) { c.TypoSubs, c.TypoAll = false, false }, func(c *Config) { c.TypoAll = false }, func(c *Config) { c.ErrRenderer = false }, func(c *Config) { c.HeadingAttr = false },
+			func(c *Config) { c.ExtHTMLOpts = false }, func(c *Config) { c.HTMLWriter = "" }, func(c *Config) { c.LinkifyOpt = "" }, func(c *Config) { c.CJK = "" },
 			func(c *Config) { c.AutoID = false }, func(c *Config) { c.Attribute = false }, func(c *Config) { c.Unsafe = false },
 			func(c *Config) { c.XHTML = false }, func(c *Config) { c.HardWraps = false }} {
 			c := cur.clone()
